@@ -10,7 +10,7 @@
 //                                                     uN    use N (one more probe; matters for caches / statics)
 //                                                     dN    destroy N
 // Every request runs in a fork()ed child (a crash is an observation, not the end of the run).  The child has a WATCHDOG: a CPU-time
-// limit (RLIMIT_CPU, default 20 s, several hundred times what the slowest history needs; CPU time does not depend on the load of
+// limit (RLIMIT_CPU, default 10 s; the slowest history of the quick tier needs about 0.3 s; CPU time does not depend on the load of
 // the machine) and a wall-clock alarm (default 900 s).  Its expiry
 // is printed as "X watchdog-cpu" / "X watchdog-wall": that is a statement about the tooling, the python side treats it as
 // INCONCLUSIVE (it re-runs the history alone with much larger limits before concluding anything).  Limits: environment variables
@@ -26,6 +26,32 @@
 #include <sys/wait.h>
 #include <signal.h>
 #include <sys/resource.h>
+
+#include <dirent.h>
+#include <fcntl.h>
+// ---- caps SHARED by all dispatcher processes of one run (directory C16_SHARED, one empty file per event): a hang must not cost
+// (number of parallel workers) x budget.  "x-<class>-.." = a child of that class overran the CPU budget, "c-<class>-.." = crashed.
+//   * after the FIRST overrun of a class no dispatcher drives that class any more in this run (python confirms that one history alone);
+//   * after 6 overruns in total every dispatcher stops (the rest of the stream is printed as skipped);
+//   * after 4 crashes of a class it is not driven any more.
+static std::string g_shared;
+static std::string cls_key(const std::string& c) { char b[32]; snprintf(b, sizeof b, "%016llx", (unsigned long long)fnv(c)); return b; }
+static int shared_count(const std::string& prefix) {
+    if (g_shared.empty()) return -1;
+    DIR* d = opendir(g_shared.c_str()); if (!d) return -1;
+    int n = 0; while (struct dirent* e = readdir(d)) if (strncmp(e->d_name, prefix.c_str(), prefix.size()) == 0) ++n;
+    closedir(d); return n;
+}
+static void shared_mark(const std::string& prefix) {
+    if (g_shared.empty()) return;
+    static int seq = 0; char b[64]; snprintf(b, sizeof b, "%d-%d", (int)getpid(), seq++);
+    int fd = open((g_shared + "/" + prefix + b).c_str(), O_CREAT | O_WRONLY, 0644); if (fd >= 0) close(fd);
+}
+static std::vector<std::string> members_of(const std::string& spec) {
+    std::vector<std::string> v; size_t a = 0; for (;;) { size_t b = spec.find('&', a); v.push_back(spec.substr(a, b == std::string::npos ? b : b - a)); if (b == std::string::npos) break; a = b + 1; }
+    if (v.size() > 1) v.push_back(spec);
+    return v;
+}
 
 static int env_int(const char* name, int dflt) { const char* v = getenv(name); return v && atoi(v) > 0 ? atoi(v) : dflt; }
 
@@ -66,15 +92,34 @@ int main(int argc, char** argv) {
     bool verbose = getenv("C16_VERBOSE") != 0;
     bool nofork = getenv("C16_NOFORK") != 0;
     std::string line;
+    if (getenv("C16_SHARED")) g_shared = getenv("C16_SHARED");
+    int total_expired = 0;
     std::map<std::string, int> abnormal;        // per class: children that crashed; after 4 the class is skipped (time)
     std::map<std::string, int> expired;         // per class: children stopped by the watchdog; every history still gets a fresh child until 4 of a class have expired in this dispatcher (then the rest is skipped, inconclusive: a real hang would otherwise cost 20 s of CPU per history)
-    int cpu_limit = env_int("C16_CPU_LIMIT", 20), wall_limit = env_int("C16_WALL_LIMIT", 900);
+    int cpu_limit = env_int("C16_CPU_LIMIT", 10), wall_limit = env_int("C16_WALL_LIMIT", 900);
     while (std::getline(std::cin, line)) {
         if (line.empty()) continue;
         if (nofork) { run_history(line, verbose, stdout); continue; }
         std::string cls = line.substr(0, line.find(' '));
-        if (abnormal[cls] >= 4) { printf("%s | X skipped-after-repeated-crashes\n", cls.c_str()); fflush(stdout); continue; }
-        if (expired[cls] >= 4) { printf("%s | X skipped-after-watchdog\n", cls.c_str()); fflush(stdout); continue; }
+        {   std::vector<std::string> mem = members_of(cls);
+            bool crashed = abnormal[cls] >= 4, over = expired[cls] >= 1, stop = total_expired >= 6;
+            if (!g_shared.empty()) {          // one pass over the (normally empty) directory
+                DIR* dd = opendir(g_shared.c_str());
+                if (dd) {
+                    int nx = 0; std::map<std::string, int> nc;
+                    std::vector<std::string> keys; for (size_t i = 0; i < mem.size(); ++i) keys.push_back(cls_key(mem[i]));
+                    while (struct dirent* e = readdir(dd)) {
+                        const char* nm = e->d_name;
+                        if (nm[0] == 'x' && nm[1] == '-') { ++nx; for (size_t i = 0; i < keys.size(); ++i) if (strncmp(nm + 2, keys[i].c_str(), 16) == 0) over = true; }
+                        else if (nm[0] == 'c' && nm[1] == '-') { for (size_t i = 0; i < keys.size(); ++i) if (strncmp(nm + 2, keys[i].c_str(), 16) == 0 && ++nc[keys[i]] >= 4) crashed = true; }
+                    }
+                    closedir(dd);
+                    stop = stop || nx >= 6;
+                }
+            }
+            if (crashed) { printf("%s | X skipped-after-repeated-crashes\n", cls.c_str()); fflush(stdout); continue; }
+            if (over || stop) { printf("%s | X skipped-after-watchdog\n", cls.c_str()); fflush(stdout); continue; }
+        }
         fflush(stdout);
         pid_t pid = fork();
         if (pid == 0) {
@@ -86,10 +131,11 @@ int main(int argc, char** argv) {
             _exit(0);
         }
         int st = 0; waitpid(pid, &st, 0);
-        if (WIFSIGNALED(st) && (WTERMSIG(st) == SIGXCPU || WTERMSIG(st) == SIGKILL)) { printf(" | X watchdog-cpu\n"); ++expired[cls]; }   // SIGKILL: hard CPU limit / OOM killer
-        else if (WIFSIGNALED(st) && WTERMSIG(st) == SIGALRM) { printf(" | X watchdog-wall\n"); ++expired[cls]; }
-        else if (WIFSIGNALED(st)) { printf(" | X signal-%d\n", WTERMSIG(st)); ++abnormal[cls]; }
-        else if (WEXITSTATUS(st) != 0) { printf(" | X exit-%d\n", WEXITSTATUS(st)); ++abnormal[cls]; }
+        if (WIFSIGNALED(st) && WTERMSIG(st) == SIGXCPU) { printf(" | X watchdog-cpu\n"); ++expired[cls]; ++total_expired; shared_mark("x-" + cls_key(cls) + "-"); }
+        else if (WIFSIGNALED(st) && WTERMSIG(st) == SIGKILL) { printf(" | X watchdog-kill\n"); ++expired[cls]; ++total_expired; shared_mark("x-" + cls_key(cls) + "-"); }   // killed by the system (memory): never a "does not return"
+        else if (WIFSIGNALED(st) && WTERMSIG(st) == SIGALRM) { printf(" | X watchdog-wall\n"); ++expired[cls]; ++total_expired; shared_mark("x-" + cls_key(cls) + "-"); }
+        else if (WIFSIGNALED(st)) { printf(" | X signal-%d\n", WTERMSIG(st)); ++abnormal[cls]; shared_mark("c-" + cls_key(cls) + "-"); }
+        else if (WEXITSTATUS(st) != 0) { printf(" | X exit-%d\n", WEXITSTATUS(st)); ++abnormal[cls]; shared_mark("c-" + cls_key(cls) + "-"); }
         fflush(stdout);
     }
     return 0;
